@@ -132,6 +132,59 @@ theorem delivered_from_acked (fmt : String) (es : List Ev) :
             · simp [hval] at hfs; simp [ackedStep, hk, hval, hfs]
           · simp at hfs; simp [ackedStep, hk, hfs]
 
+theorem runOuts_append (L : Low) : ∀ (es es' : List Ev) (s : Conn),
+    runOuts L s (es ++ es') = runOuts L s es ++ runOuts L (runState L s es) es' := by
+  intro es
+  induction es with
+  | nil => intro es' s; rfl
+  | cons e es ih => intro es' s; simp [runOuts, runState, ih]
+
+theorem runState_append (L : Low) : ∀ (es es' : List Ev) (s : Conn),
+    runState L s (es ++ es') = runState L (runState L s es) es' := by
+  intro es
+  induction es with
+  | nil => intro es' s; rfl
+  | cons e es ih => intro es' s; simp [runState, ih]
+
+theorem damaged_step (fmt : String) (v) (s : Conn) (d : Bytes) (hopen : s.inTransfer = true) (hv : v d = none)
+    (hstx : classify d = .stx) (hbad : ¬ ChecksumOK d) :
+    stepData (lowOf fmt v) s d = (s, { reply := some .nak }) := by
+  have hvend : (lowOf fmt v).vendor d = none := hv
+  have hval : (lowOf fmt v).valid d = false := by
+    have : validB d = false := by
+      cases h : validB d with
+      | false => rfl
+      | true => exact absurd ((validB_iff d).mp h) hbad
+    simpa [lowOf] using this
+  unfold stepData
+  simp only [hvend, hstx, hopen, Bool.not_true, Bool.false_eq_true, if_false]
+  rw [handleMessage_invalid _ s d hval]
+
+/-- Retransmission is transparent: a damaged frame arriving at any point of an open transfer (first,
+    middle or last frame of a run, once or repeatedly) is answered NAK and changes nothing else — the
+    replies to all other units, the deliveries and the final state of the history are those of the
+    history without it. -/
+theorem damaged_frame_is_transparent (fmt : String) (pre post : List Ev) (d : Bytes)
+    (hstx : classify d = .stx) (hbad : ¬ ChecksumOK d)
+    (hopen : (runState (lowOf fmt (fun _ => none)) Conn.init pre).inTransfer = true) :
+    runOuts (lowOf fmt (fun _ => none)) Conn.init (pre ++ .data d :: post) =
+      runOuts (lowOf fmt (fun _ => none)) Conn.init pre ++
+        { reply := some .nak } :: runOuts (lowOf fmt (fun _ => none)) (runState (lowOf fmt (fun _ => none)) Conn.init pre) post ∧
+    runState (lowOf fmt (fun _ => none)) Conn.init (pre ++ .data d :: post) =
+      runState (lowOf fmt (fun _ => none)) Conn.init (pre ++ post) ∧
+    deliveries (lowOf fmt (fun _ => none)) Conn.init (pre ++ .data d :: post) =
+      deliveries (lowOf fmt (fun _ => none)) Conn.init (pre ++ post) := by
+  have hstep := damaged_step fmt (fun _ => none) _ d hopen rfl hstx hbad
+  refine ⟨?_, ?_, ?_⟩
+  · rw [runOuts_append]
+    simp only [runOuts, step, hstep]
+  · rw [runState_append, runState_append]
+    simp only [runState, step, hstep]
+  · unfold deliveries
+    rw [runOuts_append, runOuts_append]
+    simp only [runOuts, step, hstep]
+    simp
+
 /-- non-vacuity: a frame with a correct checksum, the same frame with one text byte changed, and an
     open state with a pending multi-frame run in which the premises of the theorems above hold -/
 theorem example_frames :
